@@ -695,6 +695,8 @@ func (e *engine) run() {
 	add(t, err, "squashfs-gzip-frag")
 	t, err = buildSqfs(c.Scratch, c.Rng.Fork(), thorough, 8192, squashfs.FinalizeOptions{NoFragments: true, NoCompressData: true}, "squashfs-raw-nofrag")
 	add(t, err, "squashfs-raw-nofrag")
+	t, err = buildSqfs(c.Scratch, c.Rng.Fork(), thorough, 4096, squashfs.FinalizeOptions{Compression: &squashfs.CompressorGzip{CompressionLevel: 6}}, "squashfs-zlib-mixed")
+	add(t, err, "squashfs-zlib-mixed")
 
 	e.probeWitnesses(targets)
 
